@@ -740,7 +740,15 @@ func c45ReplicaCase(rt *rapid.T, env *c45Env, rec *vh.Recorder) {
 				continue
 			}
 			px("CALL dolt_checkout('main')")
-			px("CALL dolt_push('origin', ':" + br + "')")
+			log = append(log, "[p] CALL dolt_push('origin', ':"+br+"')")
+			if err := p.Exec("CALL dolt_push('origin', ':" + br + "')"); err != nil {
+				// a force-pushed branch keeps a working set on the file remote that later pushes leave
+				// behind; dolt then wants --force for the deletion (not part of this property)
+				if !strings.Contains(err.Error(), "uncommitted changes") {
+					fatalf("[p] deleting remote branch %s: %v", br, err)
+				}
+				px("CALL dolt_push('--force', 'origin', ':" + br + "')")
+			}
 			px("CALL dolt_branch('-D', '" + br + "')")
 			for j, x := range pBranches {
 				if x == br {
